@@ -257,7 +257,7 @@ def translator_tie(thorough=False):
     # the views whose generated text changed (or that embed one that did) are re-proved under a time limit: a proof script that no
     # longer fits can run for minutes before it gives up, and a check must not hang on it
     dirty = [v for v in todo if v in res["changed"] or any(d in res["changed"] for d in TIE_DEPENDS.get(v, []))]
-    limit = float(os.environ.get("VERIF_TIE_S", 100))
+    limit = float(os.environ.get("VERIF_TIE_S", 300 if thorough else 60))
     def committed_text(v):
         """is the generated file the one committed in /verif (the text the proofs were written against)?"""
         try:
@@ -270,7 +270,7 @@ def translator_tie(thorough=False):
     dirty = [v for v in dirty if v not in known_good]
     # each changed view on its own (so that one view's failure or time-out says nothing about another), but with a budget for
     # all of them together: a change to a shared helper can alter the generated text of many views at once
-    total = float(os.environ.get("VERIF_TIE_TOTAL_S", 300))
+    total = float(os.environ.get("VERIF_TIE_TOTAL_S", 1800 if thorough else 120))
     groups = [([v for v in todo if v not in dirty], 1200.0)] + [([v], limit) for v in dirty]
     spent = 0.0
     for gi, (vs, lim) in enumerate(groups):
